@@ -99,7 +99,12 @@ class Rec:
                 c['samples'].append({'kind': kind, 'args': short(args), 'result': short(got, 80)})
             return True
         c['nfail'] += 1
-        w = wclass if isinstance(wclass, str) or wclass is None else wclass(args, exp, got)
+        if wclass is None:
+            w = ''
+            if isinstance(got, str) and (got.startswith('EXCEPTION ') or got.startswith('raises ')):
+                w = 'exc:' + got.split()[1].rstrip(':')
+        else:
+            w = wclass if isinstance(wclass, str) else wclass(args, exp, got)
         lst = c['fails'].setdefault(w or '', [])
         if len(lst) < MAX_FAILS:
             lst.append({'kind': kind, 'args': jsonable(args), 'expected': jsonable(exp), 'got': jsonable(got), 'trace': err})
